@@ -49,9 +49,15 @@ pub struct Summary {
     pub outcomes: BTreeMap<String, u64>,
     pub ops_hist: BTreeMap<String, u64>,
     pub samples: Vec<serde_json::Value>,
+    /// order-independent digest of (case, outcome) pairs: wrapping sum of per-case hashes, so that the
+    /// merged value does not depend on how cases were split over child processes (determinism self-check)
+    pub digest: u64,
 }
 
 impl Summary {
+    pub fn note(&mut self, case_key: u64, outcome: u64) {
+        self.digest = self.digest.wrapping_add(crate::rng::mix(case_key, outcome) | 1);
+    }
     pub fn new(rule: &str) -> Self {
         Self {
             rule: rule.to_owned(),
